@@ -16,6 +16,8 @@ package oidc
 
 import (
 	"context"
+	crand "crypto/rand"
+	"encoding/binary"
 	"math/rand"
 	"time"
 
@@ -163,9 +165,26 @@ type (
 // NewRandomGenerator creates a new random session generator.
 func NewRandomGenerator() SessionGenerator {
 	return &randomGenerator{
-		rand: rand.New(rand.NewSource(time.Now().UnixNano())),
+		rand: rand.New(cryptoSource{}),
 	}
 }
+
+// cryptoSource is a math/rand source backed by crypto/rand. Session ids, state and nonce values must not be
+// computable from anything an observer knows: a generator seeded with the time of the request lets anybody who
+// sees the state parameter in the authorization URL recover the seed and recompute the session cookie.
+type cryptoSource struct{}
+
+func (cryptoSource) Seed(int64) {}
+
+func (cryptoSource) Uint64() uint64 {
+	var b [8]byte
+	if _, err := crand.Read(b[:]); err != nil {
+		panic("crypto/rand is unavailable: " + err.Error())
+	}
+	return binary.BigEndian.Uint64(b[:])
+}
+
+func (s cryptoSource) Int63() int64 { return int64(s.Uint64() >> 1) }
 
 func (r randomGenerator) GenerateSessionID() string {
 	return r.generate(64)
